@@ -67,7 +67,7 @@ theorem level_subject (cfg : Cfg) (ht : tableOK cfg = true) (hp : parenOK cfg = 
     · simp [subject, h.1, level_wrapUnder_atom cfg h.2 p hpc _ hc, atomLevel]
   · exact Nat.le_trans (level_atomicP cfg ht hp e h) (level_subject_ge cfg m p _)
 
-theorem level_lit_operand (cfg : Cfg) (p : String) (v : Val) : 10 ≤ level (wrapOperand cfg p (.lit v)) :=
+theorem level_lit_operand (cfg : Cfg) (p : String) (v : LitNode) : 10 ≤ level (wrapOperand cfg p (.lit v)) :=
   Nat.le_trans (by simp [level, atomLevel]) (level_wrapOperand_ge cfg p (.lit v))
 
 theorem wellParen_applyBin (cfg : Cfg) (o : Gen.ColOp) (s t : SqlExpr)
@@ -79,8 +79,21 @@ theorem wellParen_applyBin (cfg : Cfg) (o : Gen.ColOp) (s t : SqlExpr)
     simp [applyBin, hp, hsf, wellParen, wellParen_wrapOperand, hs, ht, hk, h1, h2] <;>
     exact Or.inr (by omega)
 
-theorem notAlias_build (cfg : Cfg) (e : PyExpr) (h : notAlias e = true) : unaliasS (build cfg e) = build cfg e := by
-  cases e <;> first
+theorem notAlias_build (cfg : Cfg) (e : PyExpr) (h : notAlias cfg e = true) : unaliasS (build cfg e) = build cfg e := by
+  cases e with
+  | lit v =>
+    simp only [notAlias, Bool.not_eq_true'] at h
+    simp [build, fnExpr, h, unaliasS]
+  | raw s v =>
+    simp only [notAlias, Bool.not_eq_true', Bool.and_eq_false_iff] at h
+    simp only [build]
+    cases hk : cfg.coerce s
+    · simp [litExpr, unaliasS]
+    · simp [litExpr, unaliasS]
+    · rcases h with h | h
+      · simp [hk] at h
+      · simp [litExpr, fnExpr, h, unaliasS]
+  | _ => first
     | rfl
     | (simp only [build]; exact unaliasS_applyBin _ _ _ _)
     | (simp only [build]; exact unaliasS_mkCast _ _)
@@ -92,14 +105,15 @@ theorem build_wellParen (cfg : Cfg) (ht : tableOK cfg = true) (hp : parenOK cfg 
     allNodes (fun n => fixCmp cfg || cmpAt cfg n) e = true →
     allNodes (fun n => fixSubj cfg || subjAt cfg n) e = true →
     allNodes (fun n => fixRefl cfg || reflAt n) e = true →
-    allNodes (fun n => fixBound cfg || boundAt n) e = true →
+    allNodes (fun n => fixBound cfg || boundAt cfg n) e = true →
     wellParen (opnd cfg e) = true := by
   intro e
   obtain ⟨hneg, hinv, hens, _, hlike, _⟩ := tableOK_misc ht
   have hun := parenOK_unary hp
   induction e with
   | col n => intros; rfl
-  | lit v => intros; rfl
+  | lit v => intros; simp [opnd, build, unaliasS_fnExpr, wellParen]
+  | raw s v => intros; simp [opnd, build, unaliasS_litExpr, wellParen]
   | arith op a b iha ihb =>
     intro h1 h2 h3 h4
     simp only [allNodes, Bool.and_eq_true, Bool.or_eq_true, cmpAt] at h1 h2 h3 h4
@@ -123,7 +137,7 @@ theorem build_wellParen (cfg : Cfg) (ht : tableOK cfg = true) (hp : parenOK cfg 
     have hlv := infixLevel_arith op
     have hle := infixLevel_le (arithKlass op)
     have hb := level_operand cfg ht hp (arithKlass op) (isA_arith_conn op) b h1.1
-    have hv := level_lit_operand cfg (arithKlass op) v
+    have hv := level_lit_operand cfg (arithKlass op) (coerceNode cfg.lit cfg.coInverse v)
     simp only [opnd] at *
     simp only [build, unaliasS_applyBin]
     apply wellParen_applyBin
@@ -153,7 +167,7 @@ theorem build_wellParen (cfg : Cfg) (ht : tableOK cfg = true) (hp : parenOK cfg 
     obtain ⟨hk, _⟩ := tableOK_cmp ht op.swap
     have hlv := infixLevel_cmp op.swap
     have hb := level_operand cfg ht hp (cmpKlass op.swap) (isA_cmp_conn op.swap) b h1.1
-    have hv := level_lit_operand cfg (cmpKlass op.swap) v
+    have hv := level_lit_operand cfg (cmpKlass op.swap) (coerceNode cfg.lit cfg.coBinary v)
     simp only [opnd] at *
     simp only [build, unaliasS_applyBin]
     apply wellParen_applyBin
@@ -183,7 +197,7 @@ theorem build_wellParen (cfg : Cfg) (ht : tableOK cfg = true) (hp : parenOK cfg 
     obtain ⟨_, _, hk, _⟩ := tableOK_logic ht op
     have hlv := infixLevel_logic op
     have hb := Nat.le_trans (level_ge3 cfg ht hp b h3.1) (level_wrapOperand_ge cfg (logicKlass op) _)
-    have hv := level_lit_operand cfg (logicKlass op) v
+    have hv := level_lit_operand cfg (logicKlass op) (coerceNode cfg.lit cfg.coInverse v)
     simp only [opnd] at *
     simp only [build, unaliasS_applyBin]
     apply wellParen_applyBin
@@ -262,7 +276,7 @@ theorem build_wellParen (cfg : Cfg) (ht : tableOK cfg = true) (hp : parenOK cfg 
     have hwhi := ihhi h1.2 h2.2 h3.2 h4.2
     -- a bound: un-aliased by the method, or not an alias to begin with
     have hbound : ∀ x : PyExpr, wellParen (opnd cfg x) = true →
-        (fixBound cfg = true ∨ notAlias x = true) →
+        (fixBound cfg = true ∨ notAlias cfg x = true) →
         ((fixSubj cfg = true) ∨ atomicP cfg x = true) →
         wellParen (bound cfg (build cfg x)) = true ∧ 10 ≤ level (bound cfg (build cfg x))
           ∧ bExpr (bound cfg (build cfg x)) = true := by
@@ -325,8 +339,8 @@ theorem build_wellParen (cfg : Cfg) (ht : tableOK cfg = true) (hp : parenOK cfg 
     have := iha h1.2 h2.2 h3.2 h4.2
     have h6 : infixLevel "Like" = 6 := rfl
     have hla : leftAssocLevel 6 = false := rfl
-    have hlit : level (SqlExpr.lit (.str p)) = 100 := rfl
-    have hwl : wellParen (SqlExpr.lit (.str p)) = true := rfl
+    have hlit : ∀ l : LitNode, level (SqlExpr.lit l) = 100 := fun _ => rfl
+    have hwl : ∀ l : LitNode, wellParen (SqlExpr.lit l) = true := fun _ => rfl
     simp only [opnd] at *
     simp only [build, hlike, unaliasS_bin, wellParen_subject, wellParen, h6, hla, hlit, Bool.and_eq_true, decide_eq_true_eq]
     simp [this]
